@@ -30,6 +30,9 @@ RULES = {
              'defaults (None; cluster id empty string) and assigns only '
              'under a flag',
     'C02.T': 'Pair(E, D) for every wire type used by a property',
+    'C02.C': 'constructor pass-through: Basic.Properties(...) and '
+             'ContentHeader(...) store every argument unchanged (no '
+             'properties argument: a new Basic.Properties)',
     'C02.R': 'composed round trip by rewriting: with the encoder\'s residual '
              'output substituted for the buffer, body size, class id, '
              'consumed count and channel come back, every property k '
@@ -276,6 +279,27 @@ def run(chk, ctx):
            not it2.flush_pending(),
            'a new Basic.Properties object is created per ContentHeader',
            site='pamqp/header.py')
+    # constructors
+    from .. import ctors
+    ptypes = {s: ctors.PY_OF_WIRE.get(types.get(s), ('object',))[0]
+              for s in slots}
+    for cshort, pt in (('commands.Basic.Properties', ptypes),
+                       ('header.ContentHeader',
+                        {'weight': 'int', 'body_size': 'int',
+                         'properties': 'inst'})):
+        cci = prog.cls(cshort)
+        r = ctors.passthrough(ctx, cci, pt)
+        if r is None:
+            chk.ob('C02.C', cshort + '()', False, 'no constructor')
+            continue
+        res, _np, _raises = r
+        names = [nm for nm, _, _ in res]
+        chk.ob('C02.C', cshort + ' parameters', names == list(pt),
+               'constructor parameters %r' % (names,),
+               detail={'expected': list(pt)})
+        for nm, ok, text in res:
+            chk.ob('C02.C', '%s(%s)' % (cshort, nm), ok, 'stores %s' % text)
+    chk.floor('C02.C', 17, 'constructor arguments')
     # primitive pairs
     pairs.check_method_types(chk, ctx, 'C02.T', sorted(
         {t for t in types.values() if isinstance(t, str)}))
